@@ -170,6 +170,7 @@ type Exec struct {
 	Owned   map[string]bool // identities named by any manifest or hook of any revision seen
 	EverDep map[int]bool    // revisions that were ever observed as deployed
 	stop    bool
+	cur     *StepObs
 }
 
 func (x *Exec) Violate(v Violation) {
@@ -236,6 +237,32 @@ func (x *Exec) Observe() *WorldObs {
 		}
 	}
 	return w
+}
+
+// noteOwned adds to the owned set the identities named by the release object
+// an operation returned and by the chart it was given: a revision that is
+// created and purged within one operation (failed atomic install) is never
+// visible in an observed ledger.
+func (x *Exec) noteOwned(results []*OpResult) {
+	ns := x.Plan.Namespace
+	for _, r := range results {
+		if r.Rel != nil {
+			for _, id := range ManifestIDs(r.Rel.Manifest, ns) {
+				x.Owned[id.String()] = true
+			}
+			for _, h := range r.Rel.Hooks {
+				for _, id := range ManifestIDs(h.Manifest, ns) {
+					x.Owned[id.String()] = true
+				}
+			}
+		}
+		if r.Op.Op == "install" || r.Op.Op == "upgrade" {
+			m, h := ChartIDs(&x.Plan.Charts[r.Op.Chart], r.Op.Values, ns)
+			for _, id := range append(m, h...) {
+				x.Owned[id.String()] = true
+			}
+		}
+	}
 }
 
 func (x *Exec) newProcID(step, i int) string {
@@ -668,6 +695,7 @@ func Execute(t *testing.T, plan *Plan, oracle func(x *Exec, so *StepObs), final 
 				x.Steps = append(x.Steps, so)
 				break
 			}
+			x.noteOwned(so.Results)
 			so.After = x.Observe()
 			x.Sim.Event("STATE %s | objs=%d", so.After.Summary(), len(so.After.Cluster))
 			x.Steps = append(x.Steps, so)
